@@ -32,7 +32,18 @@ type Gen struct {
 	BadRepos   []string // names the repository grammar refuses
 	BadTags    []string // names the tag grammar refuses
 	BadDigests []string // strings that are no digest of a registered algorithm
-	count     int
+	// PushExtras: one PushBlob in three is made with a descriptor that carries optional members
+	// (urls, annotations, platform, artifactType, data; also present-but-empty ones) - a layer
+	// descriptor taken from a manifest.  The blob it stores has media type, digest and size only.
+	PushExtras bool
+	// Recommit: follow-ups "the same session is committed again" (after the blob was deleted,
+	// as it stands, with another digest; on the same writer or on the one a resume hands out)
+	Recommit bool
+	// MountDelete: follow-ups "after a mount the blob is deleted in one of the repositories
+	// holding it and read in the others"
+	MountDelete bool
+	recommit *recommitPlan
+	count    int
 	// queue: operations scripted ahead (a directed follow-up to something that just happened);
 	// Next hands them out before drawing anything new
 	queue []Op
@@ -41,6 +52,11 @@ type Gen struct {
 	reuse *reusePlan
 	// content of the blobs pushed so far, by digest (for pushing the same content again)
 	known map[string][]byte
+}
+
+type recommitPlan struct {
+	repo, digest string
+	other        string // "": commit with the same digest again
 }
 
 type reusePlan struct {
@@ -478,6 +494,40 @@ func (g *Gen) decorate(d ocispec.Descriptor) ocispec.Descriptor {
 	return d
 }
 
+// pushExtra: the optional members of a PushBlob descriptor argument (see PushExtras), rendered.
+func (g *Gen) pushExtra() string {
+	if !g.PushExtras || g.R.Intn(3) != 0 {
+		return ""
+	}
+	var d ocispec.Descriptor
+	switch g.R.Intn(9) {
+	case 0:
+		d.URLs = []string{"https://example.com/layer"}
+	case 1:
+		d.URLs = []string{"https://a.example/x", "https://b.example/y"}
+		d.Annotations = map[string]string{"org.example.k": "v"}
+	case 2:
+		d.Annotations = map[string]string{"org.opencontainers.image.title": "t"}
+	case 3:
+		d.Platform = &ocispec.Platform{Architecture: "amd64", OS: "linux"}
+	case 4:
+		d.ArtifactType = "application/vnd.example.thing"
+	case 5:
+		d.Data = []byte("x")
+	case 6:
+		d.Annotations = map[string]string{}
+	case 7:
+		d.URLs = []string{}
+	case 8:
+		d.URLs = []string{"https://example.com/layer"}
+		d.Annotations = map[string]string{"a": "1", "b": "2"}
+		d.Platform = &ocispec.Platform{Architecture: "arm64", OS: "linux", Variant: "v8"}
+		d.ArtifactType = "application/vnd.example.thing"
+		d.Data = []byte("data")
+	}
+	return ExtraOf(d)
+}
+
 func (g *Gen) manifestContent(repo string) (content []byte, media string) {
 	// now and then the bytes of a manifest already stored, under another media type
 	if ml := g.Manifests[repo]; len(ml) > 0 && g.R.Intn(12) == 0 {
@@ -637,7 +687,7 @@ func (g *Gen) Next() Op {
 			if bl := g.Blobs[repo]; len(bl) > 0 && g.R.Intn(8) == 0 {
 				if kc, ok := g.known[g.pick(bl)]; ok {
 					c = kc
-					d = &Desc{Media: g.pick(blobMedia), Digest: Sha(c), Size: int64(len(c))}
+					d = &Desc{Media: g.pick(blobMedia), Digest: Sha(c), Size: int64(len(c)), Extra: g.pushExtra()}
 					return Op{Kind: "PushBlob", Repo: repo, Desc: d, Content: c}
 				}
 			}
@@ -657,6 +707,7 @@ func (g *Gen) Next() Op {
 			case 6:
 				d.Media = "application/vnd.custom"
 			}
+			d.Extra = g.pushExtra()
 			return Op{Kind: "PushBlob", Repo: repo, Desc: d, Content: c}
 		case p < 22:
 			repo = g.withBlobs(repo)
@@ -802,7 +853,36 @@ func (g *Gen) Update(o Op, r Result, e *Exec) {
 			// now and then: the same content is pushed again, under another media type, to one
 			// of the two repositories, and the blob is read in both.  Repositories are
 			// independent: what is done to one of them shows in that one only.
-			if c, ok := g.known[o.Digest]; ok && o.From != o.Repo && len(g.queue) == 0 && g.R.Intn(2) == 0 {
+			if g.MountDelete && o.From != o.Repo && len(g.queue) == 0 && g.R.Intn(3) == 0 {
+				// now and then: the blob is deleted in ONE of the repositories that hold it after
+				// the mount (source or target; one time in three a third repository mounts it from
+				// the target first, a chain of two mounts) and read in the others - whole, by
+				// descriptor, and a range.  A delete concerns the repository it names only.
+				holders := []string{o.From, o.Repo}
+				if g.R.Intn(3) == 0 {
+					if third := g.pick(g.Repos); third != o.From && third != o.Repo {
+						g.queue = append(g.queue, Op{Kind: "MountBlob", From: o.Repo, Repo: third, Digest: o.Digest})
+						holders = append(holders, third)
+					}
+				}
+				del := g.R.Intn(len(holders))
+				g.queue = append(g.queue, Op{Kind: "DeleteBlob", Repo: holders[del], Digest: o.Digest})
+				first := true
+				for i, h := range holders {
+					if i == del {
+						continue
+					}
+					g.queue = append(g.queue, Op{Kind: "ResolveBlob", Repo: h, Digest: o.Digest}, Op{Kind: "GetBlob", Repo: h, Digest: o.Digest})
+					if first {
+						o1 := int64(-1)
+						if c, ok := g.known[o.Digest]; ok && g.R.Intn(2) == 0 {
+							o1 = int64(len(c))
+						}
+						g.queue = append(g.queue, Op{Kind: "GetBlobRange", Repo: h, Digest: o.Digest, O0: 0, O1: o1})
+						first = false
+					}
+				}
+			} else if c, ok := g.known[o.Digest]; ok && o.From != o.Repo && len(g.queue) == 0 && g.R.Intn(2) == 0 {
 				to, other := o.From, o.Repo
 				if g.R.Intn(2) == 0 {
 					to, other = other, to
@@ -853,7 +933,16 @@ func (g *Gen) Update(o Op, r Result, e *Exec) {
 			for len(g.Writers) <= r.W {
 				g.Writers = append(g.Writers, &WriterInfo{Repo: o.Repo, ID: e.WriterCanonID(r.W)})
 			}
-			if g.reuse != nil && o.Kind == "PushBlobChunkedResume" {
+			if g.recommit != nil && o.Kind == "PushBlobChunkedResume" {
+				// the session of a committed upload was opened again: commit it once more
+				pl := g.recommit
+				dg := pl.digest
+				if pl.other != "" {
+					dg = pl.other
+				}
+				g.queue = append(g.queue, Op{Kind: "WCommit", W: r.W, Digest: dg},
+					Op{Kind: "ResolveBlob", Repo: pl.repo, Digest: pl.digest}, Op{Kind: "GetBlob", Repo: pl.repo, Digest: pl.digest})
+			} else if g.reuse != nil && o.Kind == "PushBlobChunkedResume" {
 				// the session of a committed upload was opened again: write something else into
 				// it (no longer than what was committed) and read the committed blob
 				pl := g.reuse
@@ -886,6 +975,7 @@ func (g *Gen) Update(o Op, r Result, e *Exec) {
 		}
 		if o.Kind == "PushBlobChunkedResume" {
 			g.reuse = nil
+			g.recommit = nil
 		}
 	case "WWrite":
 		if r.Kind == "n" {
@@ -903,7 +993,35 @@ func (g *Gen) Update(o Op, r Result, e *Exec) {
 			// now and then: the session is used again after its commit - cancelled or closed (the
 			// documented "defer w.Cancel()" / "defer w.Close()"), opened again by id and written to.
 			// Whatever the registry makes of that, the committed blob must stay what it is.
-			if len(g.queue) == 0 && g.R.Intn(3) != 0 {
+			if g.Recommit && len(g.queue) == 0 && g.R.Intn(3) == 0 {
+				// now and then: the same session is committed a second time - a client that lost
+				// the answer to its commit and asks again.  In between the blob was deleted (two
+				// in three), or not; the second commit names the same digest (mostly) or another;
+				// it is made on the same writer or on the one a resume by id hands out.  A commit
+				// that answers with a descriptor has stored the blob: the reads that follow say so.
+				pl := &recommitPlan{repo: w.Repo, digest: r.Desc.Digest}
+				if g.R.Intn(5) == 0 {
+					pl.other = Sha(g.content())
+				}
+				if g.R.Intn(3) != 0 {
+					g.queue = append(g.queue, Op{Kind: "DeleteBlob", Repo: w.Repo, Digest: r.Desc.Digest})
+					if g.R.Intn(3) == 0 {
+						g.queue = append(g.queue, Op{Kind: "ResolveBlob", Repo: w.Repo, Digest: r.Desc.Digest})
+					}
+				}
+				if g.R.Intn(2) == 0 {
+					dg := pl.digest
+					if pl.other != "" {
+						dg = pl.other
+					}
+					g.queue = append(g.queue, Op{Kind: "WCommit", W: o.W, Digest: dg},
+						Op{Kind: "ResolveBlob", Repo: pl.repo, Digest: pl.digest}, Op{Kind: "GetBlob", Repo: pl.repo, Digest: pl.digest})
+				} else {
+					off := []int64{-1, -1, int64(len(w.Written)), 0}[g.R.Intn(4)]
+					g.queue = append(g.queue, Op{Kind: "PushBlobChunkedResume", Repo: w.Repo, ID: w.ID, Off: off, Hint: 0})
+					g.recommit = pl
+				}
+			} else if len(g.queue) == 0 && g.R.Intn(3) != 0 {
 				switch g.R.Intn(4) {
 				case 0, 1:
 					g.queue = append(g.queue, Op{Kind: "WCancel", W: o.W})
